@@ -966,6 +966,286 @@ def check_primed(rel, kind, rec):
             for sg, w in out['viol']]
 
 
+# ------------------------------------------------------------------------------------------ one addressing mode alone
+
+MODES = ['column', 'index', 'name', 'dataframe']
+_pandas = []
+
+
+def have_pandas():
+    if not _pandas:
+        try:
+            import pandas                                   # noqa: F401
+            _pandas.append(True)
+        except Exception:
+            _pandas.append(False)
+    return _pandas[0]
+
+
+def _same_arrays(a, b):
+    import numpy as np
+    a = np.asarray(a, dtype=float)
+    b = np.asarray(b, dtype=float)
+    return a.shape == b.shape and bool(((a == b) | ((a != a) & (b != b))).all())
+
+
+def read_by_mode(lt, mode):
+    """Reads the whole table through ONE way of addressing it (no other way is touched) and compares with the
+    stored cells, which the caller compares with the printed numbers.  -> None or (clause, text)"""
+    import numpy as np
+    names = lt.row_name
+    cols = lt.column_name
+    D = lt._data
+    if mode == 'column':
+        for j, c in enumerate(cols):
+            a = lt[c]
+            if a is None or len(a) != len(names):
+                return ('column-length', 'table[%r] has %s entries for %d rows' % (c, None if a is None else len(a), len(names)))
+            if not _same_arrays(a, D[:, j]):
+                i = next(k for k in range(len(names)) if not same(a[k], D[k, j]))
+                return ('column-vs-cell', 'table[%r][%d] = %r but the stored cell is %r' % (c, i, float(a[i]), float(D[i, j])))
+        return None
+    if mode == 'index':
+        for i, n in enumerate(names):
+            ri = lt[i]
+            if ri is None:
+                return ('row-missing', 'table[%d] returned None' % i)
+            if ri.get('key') != n:
+                return ('row-key', 'table[%d] has key %r, row_name[%d] is %r' % (i, ri.get('key'), i, n))
+            v = [ri[c] for c in cols]
+            if not _same_arrays(v, D[i]):
+                j = next(k for k in range(len(cols)) if not same(v[k], D[i, k]))
+                return ('index-vs-cell', 'table[%d][%r] = %r but the stored cell is %r' % (i, cols[j], v[j], float(D[i, j])))
+        return None
+    if mode == 'name':
+        byname = {}
+        for i, n in enumerate(names):
+            byname.setdefault(n, []).append(i)
+        for i, n in enumerate(names):
+            rn = lt[n]
+            if rn is None:
+                return ('row-missing', 'table[%r] returned None' % (n,))
+            v = [rn[c] for c in cols]
+            if not any(_same_arrays(v, D[k]) for k in ([i] + byname[n])):
+                j = next(k for k in range(len(cols)) if not same(v[k], D[i, k]))
+                return ('name-vs-cell', 'table[%r][%r] = %r but the stored cell (row %d) is %r' % (n, cols[j], v[j], i, float(D[i, j])))
+        return None
+    if mode == 'dataframe':
+        df = lt.DataFrame
+        if list(df['row']) != list(names):
+            return ('dataframe-rows', 'the row column of the DataFrame differs from row_name')
+        for j, c in enumerate(cols):
+            if not _same_arrays(df[c].values, D[:, j]):
+                return ('dataframe-vs-cell', 'DataFrame column %r differs from the stored cells' % (c,))
+        return None
+    raise core.HarnessError('mode %r' % mode)
+
+
+def check_mode_alone(ctx, mode, rec):
+    """A fresh listing object on which only ONE addressing mode is ever used: at every arrival of the reading order
+    (forwards, then prev() back) the stored cells are compared with the print and the table is read completely
+    through that mode.  -> violations"""
+    viol = []
+    case = {'kind': 'mode', 'file': ctx.rel, 'mode': mode}
+    reported = set()
+
+    def on_table(ti, name, lt, how='forward'):
+        exp = ctx.exp[ti].get(name)
+        if exp is not None and exp.width <= lt.num_columns:
+            r = compare_table(exp, exp.array(lt.num_columns), lt)
+            if r:
+                return (r[0] + '|' + name, 'time %d table %s: %s' % (ti, name, r[1]))
+        a = read_by_mode(lt, mode)
+        if rec is not None:
+            rec.bulk(lt._data.size, [core.h64((ctx.rel, mode, ti, name, how))], outcome='read-by-%s-alone' % mode)
+            rec.count('cells_read_by_one_mode_alone', lt._data.size)
+        if a and (name, a[0]) not in reported:
+            reported.add((name, a[0]))
+            viol.append(('C05|base|addressing:%s%s|%s|%s|mode-alone' % (a[0], '' if how == 'forward' else '@' + how, ctx.sim, name),
+                         '%s time %d table %s (only table[%s] used on this object, reached by %s): %s'
+                         % (ctx.rel, ti, name, mode, how, a[1]), case))
+        return None
+
+    r = visit(ctx, ctx.path, None, on_table)
+    if r:
+        clause, _, table = r[0].partition('|')
+        if '@' in table:
+            table, _, hw = table.partition('@')
+            clause += '@' + hw
+        viol.append(('C05|base|%s|%s|%s|mode-alone' % (clause, ctx.sim, table or '-'),
+                     '%s (only table[%s] used): %s' % (ctx.rel, mode, r[1]), case))
+    return viol
+
+
+# ------------------------------------------------------------------------------------------ history: A used, then every other listing
+
+HIST_MARK = 'C05HIST '
+
+
+def quiet_nav(lst, n, back=True):
+    with contextlib.redirect_stdout(io.StringIO()):
+        for i in range(1, n):
+            lst.index = i
+        if back:
+            for i in range(n - 2, -1, -1):
+                lst.prev()
+            if n > 1:
+                lst.last()
+
+
+def hist_route(n):
+    """Reading order of a listing checked after another one was used: as it stands, index = 0 again (re-read),
+    index = 1..n-1, prev() back to the first time."""
+    steps = [('as-is', 'open', None, 0), ('reread', 'index', 0, 0)] + [('forward', 'index', ti, ti) for ti in range(1, n)]
+    steps += [('backward', 'prev', None, ti) for ti in range(n - 2, -1, -1)]
+    return steps
+
+
+def hist_walk(ctx, lst, out, tag):
+    """Every exposed table of lst at every arrival of hist_route against the print, the columns read by name too.
+    -> None or (clause, table, text)"""
+    for how, action, arg, ti in hist_route(ctx.nsets):
+        stage = '%s %s%s -> time %d' % (how, action, '' if arg is None else ' = %d' % arg, ti)
+        if action != 'open':
+            try:
+                with contextlib.redirect_stdout(io.StringIO()):
+                    if action == 'index':
+                        lst.index = arg
+                    else:
+                        lst.prev()
+            except (ReadBudgetExceeded, core.CaseTimeout):
+                raise
+            except Exception as e:
+                return ('step-raises:' + msgclass(e), '-', '%s raised %s: %s' % (stage, type(e).__name__, str(e)[:200]))
+        sfx = '' if how == 'forward' else '@' + how
+        for name in list(lst._tablenames):
+            lt = lst._table[name]
+            exp = ctx.exp[ti].get(name)
+            if exp is None or exp.width > lt.num_columns:
+                continue
+            r = compare_table(exp, exp.array(lt.num_columns), lt)
+            out['cells'] += int(lt._data.size)
+            out['tables_at_times'] += 1
+            if r:
+                return (r[0] + sfx, name, '%s: time %d table %s: %s' % (stage, ti, name, r[1]))
+            a = read_by_mode(lt, 'column')
+            if a:
+                return ('addressing:' + a[0] + sfx, name, '%s: time %d table %s: %s' % (stage, ti, name, a[1]))
+    return None
+
+
+def hist_child_main():
+    """Runs in a fresh interpreter.  argv: A.  Every shipped listing B is opened with default arguments (all stay
+    alive), then A is opened and moved through all its result times (forwards, prev() back, last()); then every
+    B opened before is read completely against the print, and every B is opened once more ('opened later'): it
+    must expose the tables the earlier object exposes and show the printed numbers."""
+    import json
+    import sys
+    relA = sys.argv[1]
+    core.load_library()
+    out = {'viol': [], 'cells': 0, 'tables_at_times': 0, 'pairs': 0, 'listings_opened': 0}
+    files = [rel for rel, size in listing_files()]
+    ctxs = dict((rel, Ctx(rel)) for rel in files)
+    simA = relA.split('/')[0]
+
+    def add(role, rel, clause, table, text):
+        out['viol'].append(('C05|history|%s|%s|%s|after=%s|%s' % (clause, ctxs[rel].sim, table, simA, role),
+                            '%s (%s; %s moved through all its result times in between): %s' % (rel, role, relA, text),
+                            {'kind': 'hist', 'file': relA}))
+
+    before = {}
+    try:
+        with core.timelimit(CHILD_SECONDS - 60):
+            for rel in files:
+                try:
+                    before[rel] = open_listing(ctxs[rel].path, None, ctxs[rel].budget)
+                    out['listings_opened'] += 1
+                except (ReadBudgetExceeded, core.CaseTimeout):
+                    raise
+                except Exception as e:
+                    add('opened-before', rel, 'open-raises:' + msgclass(e), '-', 'opening raised %s: %s' % (type(e).__name__, str(e)[:200]))
+            names0 = dict((rel, list(l._tablenames)) for rel, l in before.items())
+            try:
+                A = open_listing(ctxs[relA].path, None, ctxs[relA].budget)
+                out['listings_opened'] += 1
+                quiet_nav(A, A.num_fulltimes)
+            except (ReadBudgetExceeded, core.CaseTimeout):
+                raise
+            except Exception as e:
+                add('first-listing', relA, 'step-raises:' + msgclass(e), '-', 'raised %s: %s' % (type(e).__name__, str(e)[:200]))
+                A = None
+            for rel in files:
+                ctx = ctxs[rel]
+                out['pairs'] += 1
+                lst = before.get(rel)
+                if lst is not None:
+                    if list(lst._tablenames) != names0[rel]:
+                        add('opened-before', rel, 'exposed-tables-changed', '-', 'exposes %r, exposed %r' % (list(lst._tablenames), names0[rel]))
+                    elif lst.num_fulltimes != ctx.nsets:
+                        add('opened-before', rel, 'result-times', '-', 'reader finds %d result times, %d are printed' % (lst.num_fulltimes, ctx.nsets))
+                    else:
+                        r = hist_walk(ctx, lst, out, 'opened-before')
+                        if r:
+                            add('opened-before', rel, r[0], r[1], r[2])
+                try:
+                    later = open_listing(ctx.path, None, ctx.budget)
+                    out['listings_opened'] += 1
+                except (ReadBudgetExceeded, core.CaseTimeout):
+                    raise
+                except Exception as e:
+                    add('opened-later', rel, 'open-raises:' + msgclass(e), '-', 'opening raised %s: %s' % (type(e).__name__, str(e)[:200]))
+                    continue
+                try:
+                    if rel in names0 and list(later._tablenames) != names0[rel]:
+                        add('opened-later', rel, 'exposed-tables-differ', '-', 'exposes %r; the object opened before %s was used exposes %r'
+                            % (list(later._tablenames), relA, names0[rel]))
+                    elif later.num_fulltimes != ctx.nsets:
+                        add('opened-later', rel, 'result-times', '-', 'reader finds %d result times, %d are printed' % (later.num_fulltimes, ctx.nsets))
+                    else:
+                        r = hist_walk(ctx, later, out, 'opened-later')
+                        if r:
+                            add('opened-later', rel, r[0], r[1], r[2])
+                finally:
+                    close_listing(later)
+    except ReadBudgetExceeded as e:
+        out['viol'].append(('C05|history|nontermination|after=%s' % simA, str(e), {'kind': 'hist', 'file': relA}))
+    except core.CaseTimeout as e:
+        out['viol'].append(('C05|history|timeout|after=%s' % simA, str(e), {'kind': 'hist', 'file': relA}))
+    for l in before.values():
+        close_listing(l)
+    sys.stdout.write(HIST_MARK + json.dumps(out) + '\n')
+
+
+def check_hist(relA, rec):
+    import json
+    import subprocess
+    import sys
+    case = {'kind': 'hist', 'file': relA}
+    try:
+        r = subprocess.run([sys.executable, '-c', 'import checks.c05 as m; m.hist_child_main()', relA],
+                           capture_output=True, text=True, timeout=CHILD_SECONDS)
+    except subprocess.TimeoutExpired:
+        return [('C05|history|timeout|after=%s' % relA.split('/')[0], 'no result in %d s after %s' % (CHILD_SECONDS, relA), case)]
+    line = next((l for l in r.stdout.splitlines() if l.startswith(HIST_MARK)), None)
+    if line is None:
+        raise core.HarnessError('C05 history child for %s gave no result (exit %s):\n%s' % (relA, r.returncode, r.stderr[-1500:]))
+    out = json.loads(line[len(HIST_MARK):])
+    if rec is not None:
+        rec.bulk(out['cells'], [core.h64((relA, 'history', k)) for k in range(out['pairs'])], outcome='cells-compared-after-another-listing')
+        rec.count('history_cells_compared', out['cells'])
+        rec.count('history_ordered_pairs', out['pairs'])
+        rec.count('history_listings_opened', out['listings_opened'])
+        rec.count('fresh_processes', 1)
+    seen = set()
+    res = []
+    for sg, w, c in out['viol']:
+        if sg not in seen:
+            seen.add(sg)
+            res.append((sg, w, case))
+    return res
+
+
+
 # ------------------------------------------------------------------------------------------ check interface
 
 def representatives(shape):
@@ -1018,7 +1298,8 @@ def units(tier):
                 continue
             for col in range(ncol[name]):
                 us.append(('pert', rel, name, col))
-    return us + pair_units(tier, shape) + primed_units(tier, shape, ragged)
+    hist = [('hist', rel) for rel in sorted(shape)]
+    return us + pair_units(tier, shape) + primed_units(tier, shape, ragged) + hist
 
 
 def scopes_of(tier, ctx):
@@ -1033,6 +1314,10 @@ def run_unit(unit, tier, rec):
     kind, rel = unit[0], unit[1]
     if kind == 'primed':
         for s, w, c in check_primed(rel, unit[2], rec):
+            rec.violation(s, w, c)
+        return
+    if kind == 'hist':
+        for s, w, c in check_hist(rel, rec):
             rec.violation(s, w, c)
         return
     ctx = Ctx(rel)
@@ -1052,6 +1337,13 @@ def run_unit(unit, tier, rec):
             return
         rec.sample({'file': rel, 'simulator': ctx.sim, 'result_times': ctx.nsets, 'tables': names,
                     'cells_at_time_0': int(sum(snap[(0, n)][2].size for n in names if (0, n) in snap))})
+        for mode in MODES:
+            if mode == 'dataframe' and not have_pandas():
+                rec.count('dataframe_view_not_available_no_pandas', 1)
+                continue
+            for s, w, c in check_mode_alone(ctx, mode, rec):
+                rec.violation(s, w, c)
+            rec.count('single_mode_objects', 1)
         for S in subsets(names):
             for s, w, c in check_skip(ctx, snap, names, S, rec):
                 rec.violation(s, w, c)
@@ -1085,7 +1377,11 @@ def replay(case):
     core.load_library()
     if case['kind'] == 'primed':
         return [(s, w) for s, w, c in check_primed(case['file'], case['primer'], None)]
+    if case['kind'] == 'hist':
+        return [(s, w) for s, w, c in check_hist(case['file'], None)]
     ctx = Ctx(case['file'])
+    if case['kind'] == 'mode':
+        return [(s, w) for s, w, c in check_mode_alone(ctx, case['mode'], None)]
     if case['kind'] == 'pair':
         other = ctx if case['other'] == case['file'] else Ctx(case['other'])
         return [(s, w) for s, w, c in check_pair(ctx, other, None)]
